@@ -2860,6 +2860,9 @@ class op(object):
                 if not foundobj:
                     functions[rowlabel] = self.objective
                     foundobj = True
+                else:
+                    # other free rows are read and ignored
+                    functions[rowlabel] = _function()
             else: 
                 raise ValueError("unknown row type '%s'" %s[1:3].strip())
             s = f.readline()
